@@ -16,9 +16,20 @@ git -C "$VERIF" archive HEAD | tar -x -C "$VCOPY"; rm -rf "$VCOPY/replays" "$VCO
 for n in "${names[@]}"; do
     d="$VERIF/seeded/$n"; [ -f "$d/patch.diff" ] || continue
     prop=${n%%-*}
-    git -C "$WT" checkout -q -- . ; git -C "$WT" clean -q -fd src include 2>/dev/null
+    git -C "$WT" reset -q --hard HEAD; git -C "$WT" clean -q -fd src include 2>/dev/null
     if ! git -C "$WT" apply "$d/patch.diff" 2>/dev/null; then
-        git -C "$WT" apply --3way "$d/patch.diff" >/dev/null 2>&1 || { echo "$n: patch does not apply"; continue; }
+        # written against an older tree: try a three-way merge; a conflict means the code it changes was repaired since
+        if ! git -C "$WT" apply --3way "$d/patch.diff" >/dev/null 2>&1 || [ -n "$(git -C "$WT" diff --name-only --diff-filter=U)" ]; then
+            git -C "$WT" reset -q --hard HEAD
+            python3 - "$d/meta.json" <<'EOF2'
+import json, sys
+m = json.load(open(sys.argv[1]))
+m.setdefault("detected", {})["quick"] = "n/a (the patch no longer applies: the code it changes was repaired after it was written; see earlier entry in git history of this file)"
+json.dump(m, open(sys.argv[1], "w"), indent=1)
+EOF2
+            echo "$n: patch no longer applies"
+            continue
+        fi
         git -C "$WT" reset -q
     fi
     t0=$(date +%s)
